@@ -297,6 +297,21 @@ def gen_oof():
     scenario("oof-06", "oof", doc(css, "\n".join(body)),
              expect=dict(flows=flows, margin=True, probes=1, page_w=240, page_h=160, conserve=True, line_height=12, margin_top=10, margin_bottom=10))
 
+    # 14: footnotes that do not fit on the page of their call and are reported to the next page, with probes
+    css = page_css(240, 140, 10) + BASE + ".fn { float: footnote; font-size: 10px }\n::footnote-call { content: \"\" }\n::footnote-marker { content: \"\" }\n" + PROBE_CSS
+    main, body, flows = [], [], {}
+    wi = 1
+    for pi in range(10):
+        ws = words("w", 12, wi); wi += 12; main += ws
+        fn = ""
+        if pi in (1, 2, 4, 6, 7):
+            fw = words("n%d" % pi, 18 if pi in (2, 6) else 6)
+            flows["fn%d" % pi] = fw
+            fn = ' <span class=fn>%s</span>' % " ".join(fw)
+        body.append("<p>%s%s %s</p>" % (" ".join(ws[:9]), fn, " ".join(ws[9:]) + ((' ' + probe()) if pi in (0, 3, 5, 8) else "")))
+    flows["main"] = main
+    scenario("oof-14", "oof", doc(css, "\n".join(body)), expect=dict(flows=flows, margin=True, page_w=240, page_h=140, conserve=True, line_height=12))
+
     # 7: running element + string-set + fixed element + table header/footer repetition
     css = ("@page { size: 260px 170px; margin: 30px 10px 10px 10px; @top-left { content: element(hdr) } @top-right { content: string(chap); font-family: ahem; font-size: 8px } "
            "@bottom-center { content: \"pg\" counter(page) \"of\" counter(pages); font-family: ahem; font-size: 8px; line-height: 8px } }\n" + BASE +
@@ -669,6 +684,18 @@ def gen_res():
     }
     scenario("res-16", "res", doc(css0, '<p>%s <img src="img.svg" alt="alt1"></p>' % svgimp + text), files=files, expect=dict(exp0, cyclic=True, fault_words={"img.svg": ["alt1"]}))
 
+    # 17: counter values and counter styles at the edges (non-positive values for cyclic / symbolic / alphabetic,
+    # zero additive weight, values beyond 32 bits), legacy table attributes with absurd values (presentational hints)
+    css = css0 + ('@counter-style cyc { system: cyclic; symbols: a b c }\n@counter-style sym { system: symbolic; symbols: "*" "+" }\n@counter-style alp { system: alphabetic; symbols: x y }\n'
+                  '@counter-style add { system: additive; additive-symbols: 5 "V", 1 "I", 0 "z" }\n@counter-style add0 { system: additive; additive-symbols: 5 "V", 0 "z" }\n@counter-style fix { system: fixed -1; symbols: p q r }\n'
+                  '@counter-style num { system: numeric; symbols: "0" "1"; negative: "(" ")"; pad: 4 "_" }\n'
+                  '.k { counter-reset: c -3 } .k span { counter-increment: c }\n.k span::before { content: counter(c, cyc) "." counter(c, sym) "." counter(c, alp) "." counter(c, add) "." counter(c, add0) "." counter(c, fix) "." counter(c, num) "." counter(c, symbols(cyclic "u" "v")) " " }\n')
+    body = ('<p class=k>' + "".join('<span>k%03d</span> ' % i for i in range(1, 9)) + '</p><ol start="2147483647"><li>l001</li><li>l002</li><li>l003</li></ol><ol start="-2147483649" style="list-style: cyc"><li>l004</li><li>l005</li></ol>'
+            '<table cellspacing="-99999999999999999999" cellpadding="99999999999999999999" width="-99999999999999999999" border="-1" height="9e99"><tr><td width="-5" height="1e999" colspan="3">m001</td></tr></table>'
+            '<table cellspacing="-99999999999999999999"><tr><td>m005 m006 m007</td></tr></table><table width="99999999999999999999"><tr><td>m008 m009</td></tr></table><table cellpadding="-99999999999999999999"><tr><td>m010</td></tr></table>'
+            '<table cellspacing="1e3" width="100000%"><tr><td>m002</td></tr></table><hr size="-99999999999999999999" width="99999999999999999999"><font size="99999999999999999999">m003</font> <font size="-99999999999999999999">m004</font>' + text)
+    scenario("res-17", "res", doc(css, body), expect=dict(exp0, sentinels=W))
+
     # 13: underlined links with both engines (text decoration path), pre / tabs / rtl text
     css = css0 + "a { text-decoration: underline }\n.o { text-decoration: overline line-through }\npre { font-family: ahem; margin: 0 }\n"
     body = '<p><a href="http://example.org/">u001 u002</a> <span class=o>u003</span></p><pre>q001\tq002\nq003</pre>' + text
@@ -728,7 +755,8 @@ def gen_feat():
     css = page_css(260, 160, 10) + BASE + ('q { quotes: auto }\n.v { font-variant: small-caps oldstyle-nums slashed-zero; font-feature-settings: "liga" 0, "kern" 1, "smcp" 1; font-variant-ligatures: no-common-ligatures discretionary-ligatures }\n'
                                             'ol { counter-reset: a 1 b 2 c 3; margin: 0; padding-left: 20px } li { counter-increment: a 2 b c; list-style: none } li::before { content: counter(a) "." counter(b) "." counters(c, "-") " " }\n')
     W = words("w", 30)
-    body = ('<p lang="fr"><q>%s <q>%s</q></q></p><p lang="de"><q>%s <q>%s</q></q></p><p lang="en-us" class=v>%s</p><ol>%s</ol>' %
+    body = ('<p lang="zh-Hant-TW"><q>z001 <q>z002</q></q></p><p lang="zh_Hant_HK"><q>z003</q></p><p lang="en-GB-oxendict"><q>z004</q></p><p lang="fr-CA"><q>z005 <q>z006</q></q></p><p lang="sr-Latn"><q>z007</q></p><p lang="fr_CA_QC"><q>z009</q></p><p lang="sr_Latn_RS"><q>z010</q></p><p lang="bs_Cyrl_BA"><q>z011</q></p><p lang="yue-Hans"><q>z008</q></p>'
+            '<p lang="fr"><q>%s <q>%s</q></q></p><p lang="de"><q>%s <q>%s</q></q></p><p lang="en-us" class=v>%s</p><ol>%s</ol>' %
             (W[0], W[1], W[2], W[3], " ".join(W[4:14]), "".join("<li>%s<ol><li>%s</li></ol></li>" % (W[14 + 2 * i], W[15 + 2 * i]) for i in range(8))))
     scenario("feat-01", "feat", doc(css, body), expect=dict(margin=True, page_w=260, page_h=160, sentinels=W, line_height=12))
 
@@ -1158,8 +1186,20 @@ def gen_wave2():
     scenario("pag-26", "pag", doc(css, body), expect=dict(flows={"main": W}, conserve=True, line_height=10, fault_words={"_": ["a", "I", "II", "III", "IV", "V", "VI", "VII"]}))
 
 
+def gen_rewrite():
+    # constructs whose drawing mutated state in earlier versions: page marks + bleed, block-ellipsis / max-lines,
+    # SVG <text> positioned by the running cursor, images drawn on several pages, justified text
+    css = ("@page { size: 220px 150px; margin: 20px; marks: crop cross; bleed: 6px; @bottom-center { content: \"pg\" counter(page) \"of\" counter(pages); font-family: ahem; font-size: 8px; line-height: 8px } }\n" + BASE +
+           ".ell { max-lines: 2; block-ellipsis: auto; width: 120px } .ell2 { max-lines: 1; block-ellipsis: \"~~\"; width: 100px } .j { text-align: justify; width: 150px } .j2 { text-align: justify; text-align-last: justify; width: 150px }\n")
+    W = words("w", 60)
+    svgt = '<svg xmlns="http://www.w3.org/2000/svg" width="120" height="24"><text y="10" font-family="ahem" font-size="6">ta01<tspan>ta02</tspan><tspan dx="2">ta03</tspan></text><text y="20" font-family="ahem" font-size="6" dx="1 2 3">tb01</text></svg>'
+    body = (para(W[:8]) + '<p class=ell>%s</p><p class=ell2>%s</p>' % (" ".join(W[8:20]), " ".join(W[20:26])) + "<p>%s</p>" % svgt + '<p class=j>%s</p><p class=j2>%s</p><p class=j>%s</p>' % (" ".join(W[26:36]), " ".join(W[36:44]), " ".join(W[26:36]).replace("w0", "v0")) + para(W[44:]))
+    scenario("rew-01", "rew", doc(css, body, "<title>Rewrite</title>"), expect=dict(page_w=220, page_h=150, meta={"Title": "Rewrite"}, line_height=12))
+
+
 def main():
     gen_pag()
+    gen_rewrite()
     gen_wave2()
     gen_ow()
     gen_collide()
